@@ -319,6 +319,8 @@ class VFileSink(DataSink):
     @classmethod
     def _send_data(cls, data: FloatDataType, path: str):
         REC.add("VFileSink", data, {"path": path})
+        if not isinstance(path, str):
+            raise TypeError("path must be a string")   # never open() an int (a file descriptor) or a float
         with open(path, "a", encoding="utf-8") as fh:
             fh.write(repr(plain(data)) + "\n")
 
